@@ -869,7 +869,10 @@ def generate(prop, run_seed, tier='quick', tolerate=frozenset()):
             weights[k] = 0
     kinds = [k for k, v in weights.items() if v > 0]
     wts = [weights[k] for k in kinds]
-    n = min(60, 3 + int(crng.expovariate(1 / 12)))
+    deep = tier == 'thorough'
+    n = min(150 if deep else 60,
+            3 + int(crng.expovariate(1 / (24 if deep and crng.random() < .5
+                                          else 12))))
     state = {'token': 0, 'stoken': 1000}
     ops = []
     # start with some registrations so that dispatches reach someone
